@@ -41,12 +41,12 @@ mod templates {
     }
     include!(concat!(env!("OUT_DIR"), "/templates.rs"));
 }
-use templates::{N_SHAPES, TEMPLATES};
+use templates::{N_RANDOM, N_SHAPES, TEMPLATES};
 
 // ---------------------------------------------------------------- expected tree (generator side)
 
 fn ren(tag: &str) -> String {
-    if is_foreign(tag) {
+    if parse_renamed(tag) {
         format!("x-{tag}")
     } else {
         tag.to_string()
@@ -79,7 +79,8 @@ fn den_attrs(attrs: &[TAttr]) -> Vec<(String, String)> {
     for a in attrs {
         match a {
             TAttr::Plain(_, n, v) => out.push((n.clone(), v.clone())),
-            TAttr::Flag(n) | TAttr::BoolDyn(n, true) => out.push((n.clone(), String::new())),
+            TAttr::Flag(n) | TAttr::BoolDyn(n, true) | TAttr::LitBool(n, true) => out.push((n.clone(), String::new())),
+            TAttr::LitVal(n, v) => out.push((n.clone(), lit_rendered(v))),
             _ => {}
         }
     }
@@ -215,7 +216,7 @@ fn rename_svg(h: &str) -> String {
             }
             let name: String = cs[start..j].iter().collect();
             o.extend(&cs[i..start]);
-            if is_foreign(&name) {
+            if parse_renamed(&name) {
                 o.push_str("x-");
             }
             o.push_str(&name);
@@ -463,6 +464,9 @@ fn node_tags(nodes: &[Tmpl], top: bool, in_inert: bool, escape: bool, t: &mut BT
                 if special(s) {
                     t.insert("hostile".into());
                 }
+                if !s.is_empty() && s.trim().is_empty() && s != " " {
+                    t.insert("ws-only-text".into());
+                }
                 if s.is_empty() && !in_inert && escape {
                     t.insert("empty-str".into());
                 }
@@ -474,6 +478,8 @@ fn node_tags(nodes: &[Tmpl], top: bool, in_inert: bool, escape: bool, t: &mut BT
                     t.insert("svg".into());
                 } else if MATH_ALL.contains(&tag.as_str()) {
                     t.insert("math".into());
+                } else if tag == "pre" {
+                    t.insert("pre".into());
                 } else if tag.contains('-') {
                     t.insert("custom".into());
                 } else if MACRO_VOID.contains(&tag.as_str()) {
@@ -502,6 +508,9 @@ fn node_tags(nodes: &[Tmpl], top: bool, in_inert: bool, escape: bool, t: &mut BT
                         TAttr::Flag(_) | TAttr::BoolDyn(..) => {
                             t.insert("attr-bool".into());
                         }
+                        TAttr::LitBool(..) | TAttr::LitVal(..) => {
+                            t.insert("attr-literal".into());
+                        }
                         TAttr::Cls(_, v) | TAttr::ClsToggle(v, _) | TAttr::ClsTuple(v, _) => {
                             t.insert("classforms".into());
                             if special(v) {
@@ -518,6 +527,9 @@ fn node_tags(nodes: &[Tmpl], top: bool, in_inert: bool, escape: bool, t: &mut BT
                             }
                         }
                     }
+                }
+                if kids.is_empty() && self_closed_syntax(tag, attrs, kids) {
+                    t.insert("self-closed-syntax".into());
                 }
                 if kids.len() > 16 {
                     t.insert("chunked".into());
@@ -619,7 +631,8 @@ fn gen_value(r: &mut Rng, k: HoleKind) -> String {
                     s.push(' ');
                 }
             }
-            1..=5 => s.push_str(*r.pick(BENIGN)),
+            1..=4 => s.push_str(*r.pick(BENIGN)),
+            5 => s.push_str(*r.pick(&["  ", "\t", "\n", " \n ", "\u{a0}", "\u{a0} \u{a0}", "\u{2003}", "\n\n\n"])),
             6 | 7 => {
                 for _ in 0..r.range(1, 4) {
                     let cp = match r.below(4) {
@@ -690,7 +703,7 @@ fn gen(seed: u64, n: usize, path: &str, family: &[Shape]) -> std::io::Result<()>
 }
 
 fn main() {
-    let family = shapes(N_SHAPES);
+    let family = shapes(N_RANDOM);
     assert_eq!(family.len(), N_SHAPES);
     match parse_cli() {
         Cmd::Gen { seed, n, ops, .. } => gen(seed, n, &ops, &family).expect("gen"),
